@@ -117,6 +117,8 @@ type vpWorld struct {
 	winCount   int
 	thread     int
 
+	multiIPKeys map[string]bool // keys of pods that were bound with two or more IPs
+
 	lateEventActive bool // an event of an earlier incarnation is being handled while a same-named live pod with another UID exists
 	lateEventSeen   bool // ... has happened at some point of this history
 }
@@ -210,6 +212,9 @@ func (p *vpPods) Bind(ctx context.Context, b *corev1.Binding, opts metav1.Create
 	rec := vpBindRec{pod: b.Name, uid: string(pod.UID), node: b.Target.Name, annotation: b.Annotations[constant.ExtendedCNIArgsAnnotation]}
 	rec.ips = vpAnnotationIPs(rec.annotation)
 	p.w.binds = append(p.w.binds, rec)
+	if len(rec.ips) >= 2 {
+		p.w.multiIPKeys[vpKeyOf(pod)] = true
+	}
 	return nil
 }
 
@@ -411,7 +416,7 @@ func vpNewWorld(topo int, withProvider bool) *vpWorld {
 		pools: map[string]*v1alpha1.Pool{}, tapps: map[string]int{},
 		lPods: map[string]*corev1.Pod{}, lDeployments: map[string]*appsv1.Deployment{}, lStatefulset: map[string]*appsv1.StatefulSet{},
 		lPools: map[string]*v1alpha1.Pool{},
-		podLocks: &vpKeyMutex{}, dpLocks: &vpKeyMutex{}}
+		podLocks: &vpKeyMutex{}, dpLocks: &vpKeyMutex{}, multiIPKeys: map[string]bool{}}
 	_, w.ips, _ = floatingip.VTopology(topo)
 	w.store.Tick = w.tick
 	w.store.After = func(kind, name string) { w.windowPoint() }
@@ -440,6 +445,8 @@ func vpNewWorld(topo int, withProvider bool) *vpWorld {
 				return
 			}
 			node, held := w.provider.assigned[old.Name]
+			// known finding: a key holding several IPs is unassigned one IP at a time but released / reserved as a whole
+			verifKnown("kf-C10-multi-ip-partial-unassign", w.multiIPKeys[old.Spec.Key])
 			if kind == "delete" {
 				verifAssert("C10/freed-while-assigned?", !held, "a FloatingIP was freed while the provider still has it assigned to "+node)
 			} else if new != nil && new.Spec.Key != old.Spec.Key {
